@@ -70,6 +70,67 @@ CLAIMED["C09"] = {
     "design_ref": "DESIGN.md §3 C09",
 }
 
+CLAIMED["C02"] = {
+    "text": "Lean theorems over the importer/query model: for EVERY GFF3 annotation with unique single-valued IDs (any "
+            "number of features, any Parent values incl. shared, repeated, forward and dangling ones) create_db succeeds, "
+            "stores every line once in order, and the relations table is exactly {(p,c,1) | p in Parent(c)} plus "
+            "{(p,c,2) | p stored, two level-1 steps} with no duplicates (import_relations_exact); any permutation of the "
+            "lines gives the same relation set (order_independent); children/parents return exactly the stored rows "
+            "related at the requested level, each once, and parents is the inverse of children (relation_query_exact, "
+            "parents_inverse); no feature is its own relative on acyclic input (not_self). Correspondence end-to-end "
+            "(the model imports the same text) on DAGs of depth <= 4 under all permutations of <= 6 lines; oracle: set "
+            "algebra on the Parent attributes, incl. featuretype/order_by arguments and iter_by_parent_childs.",
+    "note": "Trusted: Lean kernel + standard axioms; the list model of the sqlite tables (PRIMARY KEY, INSERT OR IGNORE, "
+            "JOIN DISTINCT) and of the importer, validated by sampled correspondence; ids free of tab/outer blanks.",
+    "technique": "Lean 4 theorems (fold invariants over the importer model) + differential correspondence",
+    "design_ref": "DESIGN.md §3 C02",
+}
+CLAIMED["C04"] = {
+    "text": "Lean theorems over the model of _id_handler and the tables: the key is the single value of the first usable "
+            "listed attribute; ':field:' specs give the column; a callable's truthy value is used as is, "
+            "'autoincrement:X' gives X_n, a falsy value falls through; dict entries per featuretype, a missing entry and "
+            "'nothing applies' give <featuretype>_<n> with n counting 1,2,... per featuretype in input order "
+            "(default_numbering); a listed attribute with several values is rejected with ValueError, never truncated; "
+            "every table operation of both importers keeps ids pairwise distinct (populateGff_nodup, populateGtf_nodup); "
+            "db[key] returns exactly the row stored under key and an absent key raises FeatureNotFoundError. "
+            "Correspondence end-to-end for every id_spec form (default, string, list, ':field:', callable zoo, dict) "
+            "over features that have/lack/multiply define the attributes; oracle: keys recomputed from the property text, "
+            "uniqueness, look-ups.",
+    "note": "Trusted: Lean kernel + standard axioms; callables are a fixed zoo mirrored in Lean for the correspondence "
+            "(the theorems quantify over arbitrary functions); sqlite PRIMARY KEY modelled.",
+    "technique": "Lean 4 theorems (structural recursion over the key list, fold invariants) + differential correspondence",
+    "design_ref": "DESIGN.md §3 C04",
+}
+CLAIMED["C06"] = {
+    "text": "Lean theorems: for every session whose rows carry the bin of their coordinates (BinInv, preserved by every "
+            "write operation) and every query 1 <= a <= b of ANY magnitude, region(completely_within) returns exactly the "
+            "rows with a <= start and end <= b, region (overlap) exactly those with start <= b and end >= a, and the "
+            "limit= clause of make_query equals the plain predicate - the bin pre-filter is transparent wherever the code "
+            "applies it (from C12's bin_sound_overlap / bin_sound_within) and is applied only in range; one-sided bounds "
+            "are exact half-line tests; rows with '.' coordinates are never returned. Unit-layer correspondence (model "
+            "tables loaded from the real database) with feature and query ends on/next to every bin boundary, at and "
+            "beyond 2^29, all query forms; oracle: brute-force filter.",
+    "note": "Trusted: Lean kernel + standard axioms; the meaning of the generated SQL (NULL comparisons false, INT "
+            "affinity) is modelled, validated by the correspondence. Three defects repaired in /repo (2^29 guards, "
+            "garbled overlap OR).",
+    "technique": "Lean 4 theorems (omega over bin arithmetic via C12) + unit-layer differential correspondence",
+    "design_ref": "DESIGN.md §3 C06",
+}
+CLAIMED["C11"] = {
+    "text": "Lean theorems: the result of all_features/features_of_type is a permutation of the rows matching "
+            "featuretype (string or collection) and strand (query_perm_filter), pairwise ordered by the ORDER BY relation "
+            "under sqlite's type order NULL < INTEGER < TEXT with code-point text order, proved total and transitive for "
+            "every key list and reverse (query_sorted, query_sorted_single); without order_by rows come in input order; "
+            "count_features_of_type equals the number iterated; featuretypes()/seqids() are exactly the distinct values. "
+            "Unit-layer correspondence over mixed-case / non-ASCII seqids, numeric-looking text, ties and '.' "
+            "coordinates, every column as string, 1-tuple and in pairs; oracle: brute-force filter and sortedness.",
+    "note": "Trusted: Lean kernel + standard axioms; sqlite's ORDER BY semantics (type order, BINARY collation, DESC "
+            "binding to the last term) modelled, validated by the correspondence; order among ties unspecified; the "
+            "'attributes'/'extra' sort keys are judged by the oracle only.",
+    "technique": "Lean 4 theorems (mergeSort permutation/sortedness with a proved total preorder) + correspondence",
+    "design_ref": "DESIGN.md §3 C11",
+}
+
 PENDING_REASON = "check not built yet in this round of work (planned: DESIGN.md §3); nothing is claimed for it"
 
 
